@@ -206,7 +206,13 @@ def finish(ctx, meta, cmdline):
                       'failing': len([o for o in per_rule[r] if not o.ok])}
                   for r in rules},
         'decided_clauses': ['D0 no unresolvable name in the modules the '
-                            'property is anchored in (NameError on a path)']
+                            'property is anchored in (NameError on a path)',
+                            'DM module-level state written at run time is a '
+                            'sound memo (key-complete, nothing remembered on '
+                            'a failing path, entries never changed) and '
+                            'package decorators are transparent, for the '
+                            'functions reachable from the property\'s entry '
+                            'points']
         + list(meta.get('decided', [])),
         'undecided_clauses': meta.get('undecided', []),
         'advisories': ctx.advisories,
